@@ -44,6 +44,7 @@ fn run(prop: &str, tier: Tier) -> i32 {
         "C09" => checks::c09::run(tier),
         "C10" => checks::c10::run(tier),
         "C11" => checks::c11::run(tier),
+        "C12" => checks::c12::run(tier),
         "C13" => checks::c13::run(tier),
         "C14" => checks::c14::run(tier),
         "C15" => checks::c15::run(tier),
@@ -84,6 +85,7 @@ fn replay(path: &str) -> i32 {
         "C09" => checks::c09::replay(&case),
         "C10" => checks::c10::replay(&case),
         "C11" => checks::c11::replay(&case),
+        "C12" => checks::c12::replay(&case),
         "C13" => checks::c13::replay(&case),
         "C14" => checks::c14::replay(&case),
         "C15" => checks::c15::replay(&case),
